@@ -24,6 +24,8 @@ use hx_common::*;
 
 #[path = "c11/mem.rs"]
 mod mem;
+#[path = "c11/text.rs"]
+mod text;
 
 // ---------------------------------------------------------------------------------------------
 // scripts
@@ -51,6 +53,7 @@ pub fn show_err(e: &io::Error) -> String {
         ErrorKind::Interrupted => "intr".into(),
         ErrorKind::UnexpectedEof => "eof".into(),
         ErrorKind::WriteZero => "wz".into(),
+        ErrorKind::InvalidData => "inv".into(),
         ErrorKind::Other => "e0".into(),
         ErrorKind::BrokenPipe => "e1".into(),
         ErrorKind::PermissionDenied => "e2".into(),
@@ -1461,6 +1464,7 @@ fn exec_line(line: &str, ex: &mut Exec) -> String {
         "bseq" => exec_bseq(&w, line, ex),
         "wa" | "wva" | "wseq" => exec_writer_line(&w, line, ex),
         "cp" => exec_copy(&w, line, ex),
+        "rs" | "rsat" => text::exec(&w, line, ex),
         _ => mem::exec(&w, line, ex),
     }
 }
@@ -1806,6 +1810,7 @@ fn generate(tier: &str, rng: &mut Rng) -> Vec<Case> {
         cases.push(gen_case(rng, i));
     }
     mem::generate(tier, rng, &mut cases);
+    text::generate(tier, rng, &mut cases);
     cases
 }
 
